@@ -1089,7 +1089,7 @@ package ring
 
 // NTT-domain divisions: frame and memory safety only (values need the NTT contracts)
 //@ func Ring.DivRoundByLastModulusNTT
-//@   property C09
+//@   property C02 C09
 //@   requires 1 <= r.level && r.level < len(r.SubRings) && r.level < len(p0.Coeffs) && r.level <= len(p1.Coeffs) && r.level < len(buff.Coeffs)
 //@   requires r.level <= len(r.RescaleConstants) && r.level <= len(r.RescaleConstants[r.level-1])
 //@   let L = r.level
@@ -1108,9 +1108,14 @@ package ring
 //@   rowpre sameOrDisjoint(p1.Coeffs[i], p0.Coeffs[i]) && disjoint(p1.Coeffs[i], buff.Coeffs[i]) && disjoint(p1.Coeffs[i], buff.Coeffs[L]) && disjoint(buff.Coeffs[i], buff.Coeffs[L]) && disjoint(buff.Coeffs[i], p0.Coeffs[i])
 //@   rowpre disjoint(r.RescaleConstants[L-1], p1.Coeffs[i]) && disjoint(r.RescaleConstants[L-1], buff.Coeffs[i])
 //@   rowpre forall(k, 0, n, p0.Coeffs[i][k] < q)
+//@   rowpre disjoint(buff.Coeffs[L], p0.Coeffs[i])
+// data flow of a row: the output is the Montgomery product of the rescale constant with (the
+// transformed correction held in the buffer row, minus the INPUT row): what the transforms compute is
+// not known here, which operands meet is
+//@   rowpost forall(k, 0, n, p1.Coeffs[i][k] == MRed(buff.Coeffs[i][k] + 2*q - old(p0.Coeffs[i][k]), rc, q, mc)) by cong_refl(0, 1)
 
 //@ func Ring.DivFloorByLastModulusNTT
-//@   property C09
+//@   property C02 C09
 //@   requires 1 <= r.level && r.level < len(r.SubRings) && r.level < len(p0.Coeffs) && r.level <= len(p1.Coeffs) && 2 <= len(buff.Coeffs)
 //@   requires r.level <= len(r.RescaleConstants) && r.level <= len(r.RescaleConstants[r.level-1])
 //@   let L = r.level
@@ -1129,6 +1134,8 @@ package ring
 //@   rowpre sameOrDisjoint(p1.Coeffs[i], p0.Coeffs[i]) && disjoint(p1.Coeffs[i], buff.Coeffs[0]) && disjoint(p1.Coeffs[i], buff.Coeffs[1]) && disjoint(buff.Coeffs[1], p0.Coeffs[i])
 //@   rowpre disjoint(r.RescaleConstants[L-1], p1.Coeffs[i]) && disjoint(r.RescaleConstants[L-1], buff.Coeffs[1])
 //@   rowpre forall(k, 0, n, p0.Coeffs[i][k] < q)
+//@   rowpre disjoint(buff.Coeffs[0], p0.Coeffs[i])
+//@   rowpost forall(k, 0, n, p1.Coeffs[i][k] == MRed(buff.Coeffs[1][k] + 2*q - old(p0.Coeffs[i][k]), rc, q, mc)) by cong_refl(0, 1)
 
 // ---------------------------------------------------------------------------------------------
 // Serialization, count level (property C08).  For every serializable type: WriteTo reports, on
